@@ -8,7 +8,7 @@
 (* (never a violation).                                                             *)
 EXTENDS TraceKit, RugeStuben, CoPatterns
 
-CONSTANTS PinnedTieBug, PinnedLiftBug, ObsTol   \* variants of the transcription that describe REPO (drift only)
+CONSTANTS ObsTol        \* bound for the class-O observations, units of 2^-40
 VARIABLES l, bad, drift
 
 Eps(r)   == <<r.en, r.ed>>
@@ -109,17 +109,20 @@ SameFix(P, Q) ==      \* recorded fixed-point P against rational Q, same storage
     /\ P.n = Q.n /\ P.m = Q.m /\ P.ptr = Q.ptr /\ P.col = Q.col
     /\ \A p \in 1..Len(P.col) : FixNear(P, {p}, Q.val[p])
 AgSame(a, b) == a.empty = b.empty /\ (~a.empty => a.count = b.count /\ a.id = b.id /\ a.strong = b.strong)
+\* the transcription exists in the pinned and the repaired variant (TieBug / LiftBug): a recorded
+\* output that equals either of them conforms
+SaRunP(r, bug) == LET a == PointwiseAggRun(r.A, Eps(r), r.bs, 0, bug)
+                  IN  SARun(r.A, BoolS(a.strong), TentRun(r.A.n, a.count, a.id), Om(r)).P
+RsConforms(r, bug) == LET x == RSRun(r.A, Eps(r), RsTrunc(r), bug, FALSE) IN ~x.oob /\ ~x.empty /\ SameFix(r.P, x.P)
 Drifted(r) ==
     IF Has(r, "e") \/ r.tag # "enum" \/ r.cn > 3 THEN FALSE
     ELSE CASE r.k = "plain" -> ~AgSame(r.out, AggRun(r.A, Eps(r)))
-           [] r.k = "lift"  -> ~AgSame(r.out, PointwiseAggRun(r.A, Eps(r), r.bs, 0, PinnedLiftBug))
+           [] r.k = "lift"  -> /\ ~AgSame(r.out, PointwiseAggRun(r.A, Eps(r), r.bs, 0, TRUE))
+                               /\ ~AgSame(r.out, PointwiseAggRun(r.A, Eps(r), r.bs, 0, FALSE))
            [] r.k = "agg" /\ ~r.empty /\ r.bs = 1 ->
                  LET a == AggRun(r.A, Eps(r)) IN ~SameStorage(r.P, TentRun(r.A.n, a.count, a.id))
-           [] r.k = "sa" /\ ~r.empty ->
-                 LET a == PointwiseAggRun(r.A, Eps(r), r.bs, 0, PinnedLiftBug)
-                 IN  ~SameFix(r.P, SARun(r.A, BoolS(a.strong), TentRun(r.A.n, a.count, a.id), Om(r)).P)
-           [] r.k = "rs" /\ ~r.empty /\ ~r.crashed ->
-                 LET x == RSRun(r.A, Eps(r), RsTrunc(r), PinnedTieBug, FALSE) IN x.oob \/ x.empty \/ ~SameFix(r.P, x.P)
+           [] r.k = "sa" /\ ~r.empty -> ~SameFix(r.P, SaRunP(r, TRUE)) /\ ~SameFix(r.P, SaRunP(r, FALSE))
+           [] r.k = "rs" /\ ~r.empty /\ ~r.crashed -> ~RsConforms(r, TRUE) /\ ~RsConforms(r, FALSE)
            [] OTHER -> FALSE
 
 TInit == l = 1 /\ bad = <<>> /\ drift = 0
